@@ -158,17 +158,60 @@ func innerFlows(root *spec) []*spec {
 	return out
 }
 
-func nestedScenario(name string, d *shapeDesc) Scenario { return nestedScenarioOpt(name, d, false) }
+// longLoopScenario: a parent that polls around a sub-flow `rounds` times (well beyond any small
+// step or depth threshold) before leaving; single scripted path, nested vs flattened.
+func longLoopScenario(rounds int) Scenario {
+	var h *H
+	body := func() {
+		p := &spec{id: "P", kind: kLog, n: 1}
+		q := &spec{id: "Q", kind: kLog, n: 1}
+		done := &spec{id: "D", kind: kLog, n: 1}
+		sub := &spec{id: "S", flow: &flowSpec{start: q, edges: map[*spec]map[flyt.Action]*spec{}}}
+		root := &spec{id: "loop", flow: &flowSpec{start: p, edges: map[*spec]map[flyt.Action]*spec{}}}
+		setEdge(root, p, "again", sub)
+		setEdge(root, sub, "go", p)
+		setEdge(root, p, "exit", done)
+		h = newH(root)
+		h.menu = func(hh *H, c call) []answer {
+			if c.ph != pPost {
+				return []answer{{val: nil}}
+			}
+			switch c.node {
+			case p:
+				if hh.visits[p] <= rounds {
+					return []answer{{action: "again"}}
+				}
+				return []answer{{action: "exit"}}
+			case q:
+				return []answer{{action: "go"}}
+			}
+			return []answer{{action: "bdone"}}
+		}
+		h.maxCalls = 3*(2*rounds+4) + 10
+		flatRoot, back := flatten(root, []flyt.Action{"again", "go", "exit", "bdone"})
+		nestedRound(h, root, flatRoot, back)
+	}
+	return Scenario{Name: fmt.Sprintf("long-poll-loop rounds=%d", rounds), Body: body, Check: stdCheck(func() string { return "long" })}
+}
+
+const (
+	modePlain = iota
+	modeWarm
+	modeReconnectInner
+)
+
+func nestedScenario(name string, d *shapeDesc) Scenario { return nestedScenarioOpt(name, d, modePlain) }
 
 // warm: every inner flow object is first run STANDALONE on another store (a
 // non-initial state): nothing of that run may leak into the nested run.
-func nestedScenarioOpt(name string, d *shapeDesc, warm bool) Scenario {
+func nestedScenarioOpt(name string, d *shapeDesc, mode int) Scenario {
+	warm := mode == modeWarm
 	var h *H
 	var root, flatRoot *spec
 	var back map[*spec]*flatState
 	var menu func(h *H, c call) []answer
 	body := func() {
-		if root == nil {
+		if root == nil || mode == modeReconnectInner { // the reconnect mode mutates the spec: rebuild it
 			g := &shapeGen{leafKinds: []int{kLog}}
 			root = g.build(d, "r")
 			menu = nestedMenu(collectActions(root))
@@ -193,49 +236,9 @@ func nestedScenarioOpt(name string, d *shapeDesc, warm bool) Scenario {
 			h.menu = menu
 			h.hist = nil
 		}
-		a1, e1 := flyt.Run(h.ctx, h.build(root), h.store)
-		core.Logf("nested run returned (%q, %v)", a1, e1)
-		h.finish(a1, e1)
-		// (2): the flattened machine, same answers
-		h2 := newH(flatRoot)
-		h2.menu = func(hh *H, c call) []answer {
-			i := len(hh.answers)
-			if i >= len(h.answers) {
-				core.Problem("flattened run makes callback #%d %s, the nested run made only %d", i, c, len(h.answers))
-				return []answer{{val: nil, action: "zz"}}
-			}
-			return []answer{h.answers[i]}
-		}
-		a2, e2 := flyt.Run(h2.ctx, h2.build(flatRoot), h2.store)
-		core.Logf("flattened run returned (%q, %v)", a2, e2)
-		h2.finish(a2, e2)
-		if len(h2.calls) != len(h.calls) {
-			core.Problem("nested run made %d callbacks, flattened run %d (nested: %s)", len(h.calls), len(h2.calls), h.traceString())
-		}
-		for i := 0; i < len(h.calls) && i < len(h2.calls); i++ {
-			n1, n2 := h.calls[i], h2.calls[i]
-			if st := back[n2.node]; st == nil || st.leaf != n1.node || n1.ph != n2.ph {
-				core.Problem("visit order differs at callback #%d: nested %s, flattened %s", i, n1, n2)
-				break
-			}
-		}
-		if a1 != a2 || (e1 == nil) != (e2 == nil) {
-			core.Problem("nested run returned (%q, %v), flattened run (%q, %v)", a1, e1, a2, e2)
-		}
-		// store contents: the log written by the leaves, modulo the renaming of leaves
-		l1, _ := h.store.Get("log")
-		l2, _ := h2.store.Get("log")
-		s1, _ := l1.([]string)
-		s2, _ := l2.([]string)
-		var s2orig []string
-		for _, id := range s2 {
-			s2orig = append(s2orig, id[strings.Index(id, "<")+1:len(id)-1])
-		}
-		if !reflect.DeepEqual(s1, s2orig) && !(len(s1) == 0 && len(s2orig) == 0) {
-			core.Problem("store contents differ: nested log %v, flattened log %v", s1, s2orig)
-		}
-		if h.store.Len() != h2.store.Len() {
-			core.Problem("store sizes differ: nested %d keys, flattened %d", h.store.Len(), h2.store.Len())
+		nestedRound(h, root, flatRoot, back)
+		if mode == modeReconnectInner {
+			reconnectInnerAndRerun(h, root)
 		}
 	}
 	return Scenario{Name: name, Body: body, Check: stdCheck(func() string {
@@ -244,6 +247,100 @@ func nestedScenarioOpt(name string, d *shapeDesc, warm bool) Scenario {
 		}
 		return h.traceString()
 	})}
+}
+
+// nestedRound: one nested run (checked online against the reference) followed by the
+// flattened machine on the same answers; visit order, outcome and store log must coincide.
+func nestedRound(h *H, root, flatRoot *spec, back map[*spec]*flatState) {
+	a1, e1 := flyt.Run(h.ctx, h.build(root), h.store)
+	core.Logf("nested run returned (%q, %v)", a1, e1)
+	h.finish(a1, e1)
+	// (2): the flattened machine, same answers
+	h2 := newH(flatRoot)
+	h2.menu = func(hh *H, c call) []answer {
+		i := len(hh.answers)
+		if i >= len(h.answers) {
+			core.Problem("flattened run makes callback #%d %s, the nested run made only %d", i, c, len(h.answers))
+			return []answer{{val: nil, action: "zz"}}
+		}
+		return []answer{h.answers[i]}
+	}
+	a2, e2 := flyt.Run(h2.ctx, h2.build(flatRoot), h2.store)
+	core.Logf("flattened run returned (%q, %v)", a2, e2)
+	h2.finish(a2, e2)
+	if len(h2.calls) != len(h.calls) {
+		core.Problem("nested run made %d callbacks, flattened run %d (nested: %s)", len(h.calls), len(h2.calls), h.traceString())
+	}
+	for i := 0; i < len(h.calls) && i < len(h2.calls); i++ {
+		n1, n2 := h.calls[i], h2.calls[i]
+		if st := back[n2.node]; st == nil || st.leaf != n1.node || n1.ph != n2.ph {
+			core.Problem("visit order differs at callback #%d: nested %s, flattened %s", i, n1, n2)
+			break
+		}
+	}
+	if a1 != a2 || (e1 == nil) != (e2 == nil) {
+		core.Problem("nested run returned (%q, %v), flattened run (%q, %v)", a1, e1, a2, e2)
+	}
+	// store contents: the log written by the leaves, modulo the renaming of leaves
+	l1, _ := h.store.Get("log")
+	l2, _ := h2.store.Get("log")
+	s1, _ := l1.([]string)
+	s2, _ := l2.([]string)
+	var s2orig []string
+	for _, id := range s2 {
+		s2orig = append(s2orig, id[strings.Index(id, "<")+1:len(id)-1])
+	}
+	if !reflect.DeepEqual(s1, s2orig) && !(len(s1) == 0 && len(s2orig) == 0) {
+		core.Problem("store contents differ: nested log %v, flattened log %v", s1, s2orig)
+	}
+	if h.store.Len() != h2.store.Len() {
+		core.Problem("store sizes differ: nested %d keys, flattened %d", h.store.Len(), h2.store.Len())
+	}
+}
+
+// reconnectInnerAndRerun: after a complete run, ONLY an inner flow is re-connected (a new edge
+// from its start node back to itself on a fresh action); the parent must see it on its next run.
+func reconnectInnerAndRerun(h *H, root *spec) {
+	ins := innerFlows(root)
+	if len(ins) == 0 {
+		return
+	}
+	in := ins[0]
+	start := in.flow.start
+	h.build(in).(*flyt.Flow).Connect(h.build(start), "k9", h.build(start))
+	setEdge(in, start, "k9", start)
+	acts := collectActions(root)
+	base := nestedMenu(acts)
+	lastLeaves := map[*spec]bool{}
+	var mark func(n *spec, seen map[*spec]bool)
+	mark = func(n *spec, seen map[*spec]bool) {
+		if n == nil || seen[n] {
+			return
+		}
+		seen[n] = true
+		if n.flow == nil {
+			lastLeaves[n] = true
+			return
+		}
+		mark(n.flow.start, seen)
+		for _, m := range n.flow.edges {
+			for _, to := range m {
+				mark(to, seen)
+			}
+		}
+	}
+	mark(start, map[*spec]bool{})
+	h.nextRun()
+	h.store = flyt.NewSharedStore()
+	h.menu = func(hh *H, c call) []answer {
+		m := base(hh, c)
+		if c.ph == pPost && lastLeaves[c.node] && hh.countAction("k9") < 2 && len(hh.calls) <= 3*8 {
+			m = append(m, answer{action: "k9"})
+		}
+		return m
+	}
+	flatRoot, back := flatten(root, append([]flyt.Action{flyt.DefaultAction, "zz", "k9"}, shapeActions[:5]...))
+	nestedRound(h, root, flatRoot, back)
 }
 
 func genC10(tier string) []Scenario {
@@ -257,9 +354,16 @@ func genC10(tier string) []Scenario {
 			continue // a retrying flow is not a plain state machine: covered by C04
 		}
 		out = append(out, nestedScenario(fmt.Sprintf("nested-vs-flat shape#%d=%s", i, d), d))
-		if d.slot >= 0 && (tier == "thorough" || d.inner.slot < 0) {
-			out = append(out, nestedScenarioOpt(fmt.Sprintf("nested-vs-flat after-standalone-runs shape#%d=%s", i, d), d, true))
+		if d.slot >= 0 && d.inner.slot < 0 && !d.reuse && !d.uses(shSelfRec) {
+			out = append(out, nestedScenarioOpt(fmt.Sprintf("nested-vs-flat reconnect-inner-then-rerun shape#%d=%s", i, d), d, modeReconnectInner))
 		}
+		if d.slot >= 0 && (tier == "thorough" || d.inner.slot < 0) {
+			out = append(out, nestedScenarioOpt(fmt.Sprintf("nested-vs-flat after-standalone-runs shape#%d=%s", i, d), d, modeWarm))
+		}
+	}
+	out = append(out, longLoopScenario(70))
+	if tier == "thorough" {
+		out = append(out, longLoopScenario(300))
 	}
 	return out
 }
